@@ -287,6 +287,13 @@ static int _vds_shared_init(vorbis_dsp_state *v,vorbis_info *vi,int encp){
       ci->book_param[i]=NULL;
     }
   }
+  /* the decode books are unusable: do not leave a half-built table behind
+     for the next vorbis_synthesis_init to pick up as if it were complete */
+  if(ci->fullbooks){
+    for(i=0;i<ci->books;i++)vorbis_book_clear(ci->fullbooks+i);
+    _ogg_free(ci->fullbooks);
+    ci->fullbooks=NULL;
+  }
   vorbis_dsp_clear(v);
   return -1;
 }
